@@ -118,6 +118,16 @@ Outgoing(c) == c.transfer /\ c.dir = "out"
 RefundedNow == IF ev.name \in BlockEvents THEN ClosedIn(pre, st, "refunded") ELSE {}
 CreatedNow(P(_)) == ev.name = "Create" /\ ev.ok /\ ev.id \in Ids(st) /\ P(st.htlc[ev.id])
 
+(* the contract an identifier of the wrong kind was manufactured from ("hl:c1"
+   -> the event's secret is c1's): some open contract has that secret *)
+OpenTwin == \E i \in Ids(pre) : pre.htlc[i].state = "open" /\ pre.htlc[i].sec = ev.sec
+DupOf(state) ==
+  ev.name = "Create" /\ \E i \in Ids(pre) : SameTuple(pre.htlc[i], ev) /\ pre.htlc[i].state = state
+
+(* the event and the two before it are rejected messages *)
+RejRun3 ==
+  l - 1 >= 4 /\ \A k \in 1..3 : LET e == Trace[l - k].ev IN e.name \in MsgEvents /\ ~e.ok
+
 ExNames ==
   {"create_plain_ok", "create_in_ok", "create_out_ok", "create_multicoin", "create_dup",
    "create_rej", "claim_plain_ok", "claim_in_ok", "claim_out_ok", "claim_by_third_party",
@@ -129,6 +139,14 @@ ExNames ==
    "refund_dozens", "dt_zero", "dt_beyond_period", "inactive_rej", "amount_range_rej", "asset_lock_range_rej",
    "below_fee_rej", "changed_inflight", "deputy_changed_inflight", "claim_inactive_ok", "refund_unsupported",
    "claim_new_deputy",
+   "probe_id_upper_ok", "probe_sec_upper_ok", "probe_id_hashlock", "probe_id_prefix", "probe_id_swapped",
+   "probe_sec_hashlock", "probe_sec_id", "claim_closed_by_recipient", "claim_closed_by_sender",
+   "claim_closed_by_stranger", "create_dup_open", "create_dup_completed", "create_dup_refunded",
+   "create_dup_flipped", "create_same_lock_other_amt", "htlt_plain_coin_rej", "htlt_shaped_coin_rej",
+   "htlt_shaped_while_supply", "create_shaped_plain_ok", "claim_shaped_plain_ok", "refund_shaped_plain",
+   "htlt_multicoin_rej", "create_zero_rej", "create_to_foreign_escrow_ok", "claim_to_foreign_escrow_ok",
+   "deputy_unsignable", "no_assets_block", "asset_relisted", "asset_kind_toggled", "limit_at_supply",
+   "window_exact_end", "window_one_before_end", "available_rej", "closing_claim_rej", "probe_tail",
    "scaled_create_ok", "scaled_limit_rej", "scaled_claim", "scaled_refund", "scaled_sum64_rej", "scaled_sum64_ok",
    "mag_2p31_32", "mag_2p32_53", "mag_2p53_63", "mag_2p63_64", "mag_2p64_65", "mag_2p96", "mag_2p127_129"}
 
@@ -214,6 +232,71 @@ Exercised ==
             LET P(x) == x.transfer /\ \E d \in DOMAIN x.amt : d \in DOMAIN pre.params
                            /\ pre.params[d].deputy \notin {x.sender, x.to}
             IN ev.ok /\ ClaimOn(P)
+       \* --- negative probing / unusual inputs (round 7) ---
+       [] c = "probe_id_upper_ok" -> IsClaim /\ ev.form = "idupper" /\ ev.ok
+       [] c = "probe_sec_upper_ok" -> IsClaim /\ ev.form = "secupper" /\ ev.ok
+       [] c = "probe_id_hashlock" -> IsClaim /\ ev.form = "idhl" /\ OpenTwin
+       [] c = "probe_id_prefix" -> IsClaim /\ ev.form = "idpre" /\ OpenTwin
+       [] c = "probe_id_swapped" -> IsClaim /\ ev.form = "idrev" /\ OpenTwin
+       [] c = "probe_sec_hashlock" -> LET P(x) == x.state = "open" IN ev.form = "sechl" /\ ClaimOn(P)
+       [] c = "probe_sec_id" -> LET P(x) == x.state = "open" IN ev.form = "secid" /\ ClaimOn(P)
+       [] c = "claim_closed_by_recipient" ->
+            LET P(x) == x.state # "open" /\ ev.who = x.to /\ RightSecret(x, ev.sec) IN ClaimOn(P)
+       [] c = "claim_closed_by_sender" ->
+            LET P(x) == x.state # "open" /\ ev.who = x.sender /\ RightSecret(x, ev.sec) IN ClaimOn(P)
+       [] c = "claim_closed_by_stranger" ->
+            LET P(x) == x.state # "open" /\ ev.who \notin {x.sender, x.to} /\ RightSecret(x, ev.sec) IN ClaimOn(P)
+       [] c = "create_dup_open" -> DupOf("open")
+       [] c = "create_dup_completed" -> DupOf("completed")
+       [] c = "create_dup_refunded" -> DupOf("refunded")
+       [] c = "create_dup_flipped" ->
+            ev.name = "Create" /\ \E i \in Ids(pre) : SameTuple(pre.htlc[i], ev) /\ pre.htlc[i].transfer # ev.transfer
+       [] c = "create_same_lock_other_amt" ->
+            ev.name = "Create" /\ ev.ok /\ \E i \in Ids(pre) :
+               LET x == pre.htlc[i] IN
+               x.sender = ev.who /\ x.to = ev.to /\ x.sec = ev.sec /\ x.lts = ev.lts /\ x.amt # ev.amt
+       [] c = "htlt_plain_coin_rej" ->
+            ev.name = "Create" /\ ev.transfer /\ ~ev.ok /\ Apply(pre, ev).why = "no_asset"
+            /\ DOMAIN ev.amt \cap ShapedDenoms = {}
+       [] c = "htlt_shaped_coin_rej" ->
+            ev.name = "Create" /\ ev.transfer /\ ~ev.ok /\ Apply(pre, ev).why = "no_asset"
+            /\ DOMAIN ev.amt \cap ShapedDenoms # {}
+       \* ... while the asset the denom resembles has coins an outgoing transfer could lock
+       [] c = "htlt_shaped_while_supply" ->
+            ev.name = "Create" /\ ev.transfer /\ DOMAIN ev.amt \cap ShapedDenoms # {}
+            /\ ev.who \in DOMAIN pre.bal /\ CanPay(pre.bal, ev.who, ev.amt)
+            /\ "htltone" \in DOMAIN pre.sup /\ "htltone" \in DOMAIN pre.params
+            /\ pre.sup["htltone"].cur - pre.sup["htltone"].out >= SumOver(ev.amt, DOMAIN ev.amt)
+            /\ ev.to = pre.params["htltone"].deputy
+       [] c = "create_shaped_plain_ok" -> LET P(x) == ~x.transfer /\ DOMAIN x.amt \cap ShapedDenoms # {} IN CreatedNow(P)
+       [] c = "claim_shaped_plain_ok" -> LET P(x) == ~x.transfer /\ DOMAIN x.amt \cap ShapedDenoms # {} IN ev.ok /\ ClaimOn(P)
+       [] c = "refund_shaped_plain" -> \E i \in RefundedNow : DOMAIN pre.htlc[i].amt \cap ShapedDenoms # {}
+       [] c = "htlt_multicoin_rej" -> ev.name = "Create" /\ ev.transfer /\ ~ev.ok /\ Cardinality(DOMAIN ev.amt) > 1
+       [] c = "create_zero_rej" -> ev.name = "Create" /\ ~ev.ok /\ \E d \in DOMAIN ev.amt : ev.amt[d] = 0
+       [] c = "create_to_foreign_escrow_ok" -> ev.name = "Create" /\ ev.ok /\ ev.to = "pool"
+       [] c = "claim_to_foreign_escrow_ok" -> LET P(x) == x.to = "pool" IN ev.ok /\ ClaimOn(P)
+       [] c = "deputy_unsignable" ->
+            ev.name = "UpdateParams" /\ ev.ok /\ \E d \in DOMAIN st.params : st.params[d].deputy \in {MOD, "blk", "pool"}
+       [] c = "no_assets_block" -> ev.name = "BeginBlock" /\ DOMAIN pre.params = {} /\ DOMAIN pre.sup # {}
+       [] c = "asset_relisted" ->
+            ev.name = "UpdateParams" /\ ev.ok /\ \E d \in DOMAIN st.params \ DOMAIN pre.params :
+               d \in DOMAIN pre.sup /\ pre.sup[d].cur > 0
+       [] c = "asset_kind_toggled" ->
+            ev.name = "UpdateParams" /\ ev.ok /\ \E d \in DOMAIN st.params \cap DOMAIN pre.params :
+               st.params[d].timeLimited # pre.params[d].timeLimited /\ d \in DOMAIN pre.sup /\ pre.sup[d].cur > 0
+       [] c = "limit_at_supply" ->
+            ev.name = "UpdateParams" /\ ev.ok /\ \E d \in DOMAIN st.params \cap DOMAIN pre.sup :
+               pre.sup[d].cur > 0 /\ st.params[d].limit <= pre.sup[d].cur
+       [] c = "window_exact_end" ->
+            ev.name = "BeginBlock" /\ \E d \in DOMAIN pre.params \cap DOMAIN pre.sup :
+               pre.params[d].timeLimited /\ pre.sup[d].elapsed + (st.now - pre.prev) = pre.params[d].period
+       [] c = "window_one_before_end" ->
+            ev.name = "BeginBlock" /\ \E d \in DOMAIN pre.params \cap DOMAIN pre.sup :
+               pre.params[d].timeLimited /\ pre.sup[d].elapsed + (st.now - pre.prev) = pre.params[d].period - 1
+       [] c = "available_rej" -> ev.name = "Create" /\ ~ev.ok /\ Apply(pre, ev).why = "available"
+       [] c = "closing_claim_rej" -> IsClaim /\ ev.form = "closing" /\ ~ev.ok
+       \* a rejected message that follows two other rejected messages (the tail of a probing behaviour)
+       [] c = "probe_tail" -> RejRun3
        [] c = "scaled_create_ok" -> obs.scaleBits > 1 /\ (CreatedNow(Incoming) \/ CreatedNow(Outgoing))
        [] c = "scaled_limit_rej" -> obs.scaleBits > 1 /\ ev.name = "Create" /\ ~ev.ok
                                     /\ Apply(pre, ev).why \in {"limit", "time_limit"}
